@@ -390,7 +390,7 @@ def _parse_tlc_output(r):
         r.error, r.error_name = 'action', re.search(r'Action property (\S+) is violated', out).group(1)
     elif 'Temporal properties were violated' in out:
         r.error = 'temporal'
-    elif 'Postcondition' in out and 'violated' in out or 'post-condition' in out.lower() and 'violated' in out.lower():
+    elif re.search(r'Postcondition \S+ .*is false', out) or ('Postcondition' in out and 'violated' in out):
         r.error = 'postcondition'
     elif re.search(r'Error: Evaluating assumption|Assumption .* is false', out):
         r.error = 'assumption'
@@ -463,12 +463,13 @@ def main(run_fn, prop, level='model_checking'):
         rc = ctx.finish()
     except Infra as e:
         sys.stderr.write('INFRA-ERROR %s: %s\n' % (prop, e))
+        rc = 2
         try:
-            ctx.warnings.append('infra error: %s' % e)
-            ctx.finish()
+            ctx.warnings.append('infra error: %s' % str(e)[:2000])
+            if ctx.finish() == 1:
+                rc = 1      # a violation of real behaviour was already reported
         except Exception:
             pass
-        rc = 2
     except Exception:
         traceback.print_exc()
         rc = 2
